@@ -48,9 +48,10 @@ def _solver(h, cls, strict, has_run):
     h.assume('fc0 >= 0', fc0=fc0)
     p0, p1 = h.list_real('member0', nd=True, n=D), h.list_real('member1', nd=True, n=D)
     e0 = h.real('e0', inf=True)
+    bounds = h.fn('STRICT_BOUNDS_CONSTRAINT', ret='same')
     s = h.obj(cls, nDim=D, nPop=2, population=h.clist([p0, p1]), popEnergy=h.clist([e0, h.real('e1', inf=True)]),
               _bestEnergy=e0, _bestSolution=None, _stepmon=stepmon, _evalmon=evalmon, _fcalls=h.clist([fc0]),
-              _useStrictRange=strict, _strictMin=mn, _strictMax=mx, _constraints=cons, _strictbounds=cons,
+              _useStrictRange=strict, _strictMin=mn, _strictMax=mx, _constraints=cons, _strictbounds=bounds,
               _penalty=pen, _reducer=None, _cost=h.tup(None, None, None), _live=False, _map=None,
               _energy_history=None, _solution_history=None)
 
@@ -60,7 +61,12 @@ def _solver(h, cls, strict, has_run):
 
     def and_(I, c, args, kwargs):
         I.st.ghost.setdefault('and_', []).append(tuple(args))
-        return cons           # the coupling of the constraints with the bounds is again a constraints callable
+        # the coupling of the constraints with the bounds is again a constraints callable.  It is built constraints FIRST,
+        # bounds second, falling back on the bounds -- the order the solvers' own _Step uses for the point they report, so
+        # the evaluated and the reported point are the same fixed point
+        I.st.check('C03/constraints-coupled-with-the-bounds-constraints-first-falling-back-on-the-bounds',
+                   len(args) == 2 and args[0] is cons and args[1] is bounds and kwargs.get('onfail') is bounds)
+        return cons
 
     def clip_guess(I, c, args, kwargs):
         return args[1]        # contract in contracts/initial_points.py (result inside the box); not needed here
@@ -74,12 +80,15 @@ def _solver(h, cls, strict, has_run):
     return s, D, mn, mx, raw, pen, cons, fc0
 
 
-def _decorated(h, cls, applies_constraints):
+def _decorated(h, cls, applies_constraints, counts=True, maps=None):
     strict = h.choice('useStrictRange', [False, True])
     has_run = h.choice('already_iterated', [False, True])
     s, D, mn, mx, raw, pen, cons, fc0 = _solver(h, cls, strict, has_run)
     if not h.is_sym():
         h.unsupported('native mode: the same clauses are evaluated on whole runs by the bounded layer (rtc/c01-c04)')
+    if maps:
+        which = h.choice('map', maps)
+        h.set_field(s, '_map', h.get('mystic/python_map.py::python_map') if which == 'builtin' else h.fn('USER_SUPPLIED_MAP', ret='list'))
     F = h.call(h.getattr(s, '_decorate_objective'), raw, None)
     h.check('C04/counter-continues-across-re-decoration', 's._fcalls[0] == fc0', s=s, fc0=fc0)
     h.check('C04/stored-objective-is-the-decorated-one-and-live', 'same(s._cost[0], F) and same(s._cost[1], raw) and s._live is True',
@@ -92,14 +101,16 @@ def _decorated(h, cls, applies_constraints):
     env = dict(s=s, D=D, mn=mn, mx=mx, x=x, x0=x0, r=r, evals=evals, pevals=pevals, mon=mon, c=c, fc0=fc0)
     inbox_c = INBOX % ('c', 'c')
     h.check('C03/candidate-not-modified', 'seq_eq(x, x0)', **env)
-    h.check('C04/counter-and-monitor-follow-the-raw-calls',
-            's._fcalls[0] == fc0 + len(evals) and len(mon) == len(evals) and len(evals) <= 1', **env)
+    if counts:
+        h.check('C04/counter-and-monitor-follow-the-raw-calls',
+                's._fcalls[0] == fc0 + len(evals) and len(mon) == len(evals) and len(evals) <= 1', **env)
     for k in range(2):
         if len(evals) > k:
             h.check('C03/raw-cost-called-only-at-the-constrained-point', 'seq_eq(evals[%d][0], c)' % k, **env)
             if strict:
                 h.check('C02/raw-cost-called-only-inside-the-box', INBOX % ('evals[%d][0]' % k, 'evals[%d][0]' % k), **env)
-            h.check('C04/monitor-record-is-the-evaluated-point', 'seq_eq(mon[%d][0], evals[%d][0])' % (k, k), **env)
+            if counts:
+                h.check('C04/monitor-record-is-the-evaluated-point', 'seq_eq(mon[%d][0], evals[%d][0])' % (k, k), **env)
     if strict:
         h.check('C02/outside-the-box-means-not-evaluated', 'implies(not (%s), len(evals) == 0)' % inbox_c, **env)
         h.check('C01/inside-the-box-means-evaluated-once', 'implies(%s, len(evals) == 1)' % inbox_c, **env)
@@ -118,7 +129,7 @@ def decorate_base(h):
     _decorated(h, AS + '::AbstractSolver', True)
 
 
-@contract('C01/NelderMead._decorate_objective', ['C01', 'C02', 'C03', 'C04'], SO + '::NelderMeadSimplexSolver._decorate_objective', native=False)
+@contract('C01/NelderMead._decorate_objective', ['C01', 'C02', 'C03', 'C04', 'C08'], SO + '::NelderMeadSimplexSolver._decorate_objective', native=False)
 def decorate_nm(h):
     _decorated(h, SO + '::NelderMeadSimplexSolver', True)
 
@@ -162,3 +173,10 @@ def bootstrap(h):
     h.check('stored-objective-reused-only-while-live-and-unchanged', 'same(r, stored) == (%s)' % reuse, **e)
     h.check('otherwise-decorated-afresh-from-the-raw-cost', 'implies(not (%s), same(r, fresh) and n == 1 and target_ok)' % reuse, **e)
     h.check('no-decoration-when-reused', 'implies(%s, n == 0)' % reuse, **e)
+
+
+@contract('C02/DE2._decorate_objective', ['C02', 'C01'], DE + '::DifferentialEvolutionSolver2._decorate_objective', native=False)
+def decorate_de2(h):
+    """the map-based DE: the box guard, the penalty and the value clauses hold whatever map evaluates the candidates -- the
+    builtin one or a map the user supplied (evaluations are counted by _Step for this solver, not by the objective)"""
+    _decorated(h, DE + '::DifferentialEvolutionSolver2', False, counts=False, maps=['builtin', 'user'])
